@@ -26,49 +26,49 @@ CLAIMED = {
      text="Every sequence up to the stated depth over put/delete/batch plus ranged and open-ended compact_range, flushes, snapshots and seek-triggered compaction; the full contents (latest and every live snapshot) dumped before each flush/compaction must equal the dump after it and after the background thread went idle; plus model comparison. Schedule part: thread programs in which the main thread closes the database while an automatic or manual compaction is in its merge loop (all schedules within the bound); after the reopen every acknowledged write must be there."),
   "C10": dict(level="model_checking", design="§5 C10",
      technique="exhaustive operation-sequence enumeration on the real DB; structural invariant evaluated in every state",
-     text="In every state reached by every sequence up to the stated depth (incl. reopen with changed options) the structured layout is checked: sortedness/disjointness per level >= 1, bounds order, bounds == stored first/last entry, no duplicate numbers, NumFilesAtLevel agrees with the structure and every line of the SSTables descriptor equals the line rendered from the structure (file number, size, smallest and largest internal key)."),
+     text="In every state reached by every sequence up to the stated depth (incl. reopen with changed options) the structured layout is checked: sortedness/disjointness per level >= 1, bounds order, bounds == stored first/last entry, no duplicate numbers, NumFilesAtLevel agrees with the structure and every line of the SSTables descriptor equals the line rendered from the structure (file number, size, smallest and largest internal key). A family with a 3000-byte value two levels down makes compaction outputs end at the grandparent-overlap limit while their builder is open."),
   "C02": dict(level="fault_enumeration", design="§5 C02", note=CRASH_NOTE,
      technique="exhaustive crash-point enumeration: every prefix of the filesystem-operation log of recorded histories (and of the recovery's own log), each recovered with the real DB::open and compared with the model of acknowledged operations",
-     text="For every history of a generated family (all sequences up to a depth over put/delete/batch/multi-block batch/flush/compaction/reopen in four configurations) and three covering histories: every prefix of the totally ordered mutating filesystem operations is materialised as a crash image, recovered, checked against the acknowledged model (in-flight batch all or nothing), probed with new writes and reopened; nested crashes during recovery likewise. Schedule part (schedule x crash): for every schedule within the preemption/deviation bound of single-writer-vs-compaction programs a crash image is recovered after every removal, manifest write and rename; for multi-writer programs (group commit, queued writers, rotation) after every write to any file: per key the recovered value must stem from a started write that no acknowledged write definitely followed, batches all or nothing."),
+     text="For every history of a generated family (all sequences up to a depth over put/delete/batch/multi-block batch/flush/compaction/reopen in four configurations) and three covering histories: every prefix of the totally ordered mutating filesystem operations is materialised as a crash image, recovered, checked against the acknowledged model (in-flight batch all or nothing), probed with new writes and reopened; nested crashes during recovery likewise. Schedule part (schedule x crash): for every schedule within the preemption/deviation bound of single-writer-vs-compaction programs a crash image is recovered after every removal, manifest write and rename; for multi-writer programs (group commit, queued writers, rotation) after every write to any file: per key the recovered value must stem from a started write that no acknowledged write definitely followed, batches all or nothing. Every crash image of the covering histories is also recovered with other options than it was written with (log reuse flipped, a 200-byte memtable budget, the history's other configurations). The covering histories include write-ahead logs whose first record ends 7 / 6 bytes before a block end."),
   "C03": dict(level="model_checking", design="§5 C03",
      technique="exhaustive operation-sequence enumeration with live snapshots/iterators vs frozen model copies + preemption-bounded exhaustive schedule exploration of reader-vs-compaction programs",
-     text="Sequence part: every sequence up to the stated depth over writes, snapshots (<=2 live), a held iterator, flushes, compactions and seek-triggered compaction; after every operation every live snapshot's gets and forward/backward scans and the held iterator equal the model frozen at creation. Schedule part: all schedules within the preemption/deviation bound of snapshot/iterator readers against overwrite+flush+compaction+file deletion under strict-unlink."),
+     text="Sequence part: every sequence up to the stated depth over writes, snapshots (<=2 live), a held iterator, flushes, compactions and seek-triggered compaction; after every operation every live snapshot's gets and forward/backward scans and the held iterator equal the model frozen at creation. Schedule part: all schedules within the preemption/deviation bound of snapshot/iterator readers against overwrite+flush+compaction+file deletion under strict-unlink. Hot-key families: 130 versions of one key above a live snapshot (the run crosses block and filter-range boundaries inside one user key)."),
   "C05": dict(level="model_checking", design="§5 C05", note=SCHED_NOTE,
      technique="stateless model checking of the real code: exhaustive preemption/deviation-bounded DFS over thread schedules (own scheduler on the shuttle runtime) with brute-force linearizability checking of each history",
      text="All schedules with at most the stated number of preemptions/deviations of 22 sharp (2-4 threads) and 132 generated 2-thread programs (get/put/delete/batch/snapshot read/iterator/compact_range over two keys, memtable rotation + flush + version install inside the run); every recorded call/return history must be linearizable against a map model. The memtable skip list is a verification copy of the dependency with scheduling points between its per-level links. Under an injected fault by file kind (once / sticky, optionally only one thread's calls) 20 writer programs are judged by linearizability with failed calls optional and by a reopen after the fault: every caller got its own outcome."),
   "C06": dict(level="model_checking", design="§5 C06", note=SCHED_NOTE,
      technique="exhaustive preemption/deviation-bounded schedule DFS on the real code; atomic-visibility oracle on snapshot reads and iterator scans",
-     text="All schedules within the bound of writers applying multi-key batches (2-3 keys, rotating, group-commit-merged, delete+put, one key twice in a batch) against snapshot readers, plain gets and iterator scans (forwards and backwards on one iterator), with the named switch points inside apply_changes; every sequence-consistent observation sees all or none of each batch."),
+     text="All schedules within the bound of writers applying multi-key batches (2-3 keys, rotating, group-commit-merged, delete+put, one key twice in a batch) against snapshot readers, plain gets and iterator scans (forwards and backwards on one iterator), with the named switch points inside apply_changes; every sequence-consistent observation sees all or none of each batch. Sequence part: from a state with a three-key batch, a live snapshot and 130 newer versions of the batch's middle key, every short sequence of further versions, batches, deletes, flushes and compactions; snapshot gets and scans keep showing the whole batch. Crash part: at every crash image of the covering and generated histories the recovered contents of the history's keys equal the model after some prefix of the history's operations (never part of a batch), right after the recovery, after each of three later writes to other keys and after a clean reopen."),
   "C09": dict(level="model_checking", design="§5 C09",
      technique="exhaustive operation-sequence enumeration over every public call + preemption-bounded schedule DFS; verdicts are the runtime's deadlock / step-bound / panic detectors",
-     text="Every sequence up to the stated depth over an alphabet containing every public call (incl. all descriptors, iterators, snapshots, reopen) and flush-by-fill workloads, and all schedules within the bound of writer/writer/compaction/flush programs: every execution must run to completion without deadlock, livelock (step bound) or a panic of a client call or the background thread."),
+     text="Every sequence up to the stated depth over an alphabet containing every public call (incl. all descriptors, iterators, snapshots, reopen) and flush-by-fill workloads, and all schedules within the bound of writer/writer/compaction/flush programs: every execution must run to completion without deadlock, livelock (step bound) or a panic of a client call or the background thread. The parking_lot shim's reader-writer lock follows parking_lot's task-fair policy (an announced writer blocks new readers; a repeated shared acquisition on one task is a scheduling point); two iterator-creation-vs-writer programs are explored with two preemptions in the quick tier."),
   "C11": dict(level="model_checking", design="§5 C11",
      technique="exhaustive operation-sequence enumeration with a directory-listing oracle after each reclamation opportunity + schedule DFS of readers vs deletion under strict unlink",
-     text="At every node of every sequence up to the stated depth (snapshots, iterators, seek compactions, reopen) where nothing pins old versions, the three directories must hold exactly CURRENT, LOCK, the current manifest, needed WALs and the tables of the current layout; live tables must exist whenever a snapshot/iterator is held; no read concurrent with compaction + deletion touches a removed file. Schedule x crash: a crash image recovered at every file removal of every explored schedule holds the acknowledged writes. Schedule x fault: a reader whose own table reads fail races with flushes/compactions installing versions; afterwards (fault disarmed, all compacted, background idle) the directories again hold exactly the needed files; the same without a fault for readers whose answer is 'not found'. Crash part: every crash image of the covering histories is recovered and the directories must be exact as soon as the recovery's background work is idle, before any operation, and again after probe writes and a flush."),
+     text="At every node of every sequence up to the stated depth (snapshots, iterators, seek compactions, reopen) where nothing pins old versions, the three directories must hold exactly CURRENT, LOCK, the current manifest, needed WALs and the tables of the current layout; live tables must exist whenever a snapshot/iterator is held; no read concurrent with compaction + deletion touches a removed file. Schedule x crash: a crash image recovered at every file removal of every explored schedule holds the acknowledged writes. Schedule x fault: a reader whose own table reads fail races with flushes/compactions installing versions; afterwards (fault disarmed, all compacted, background idle) the directories again hold exactly the needed files; the same without a fault for readers whose answer is 'not found'. Crash part: every crash image of the covering histories is recovered and the directories must be exact as soon as the recovery's background work is idle, before any operation, and again after probe writes and a flush. Every crash image is also recovered with other options than it was written with (log reuse flipped, a 200-byte memtable budget)."),
   "C12": dict(level="exploration", design="§5 C12", note=COMP_NOTE,
      technique="exhaustive enumeration of record-length sequences around the block arithmetic, writer re-open splits, truncation points and stop-between-fragments cases against the real LogWriter/LogReader",
-     text="Bounded-exhaustive: all record-length triples placing the write position at every residue before a block end x second-record classes x re-open splits are written with the real writer and read back byte for byte; each file is truncated at every relevant byte; writer-died-between-fragments + append cases. A statement about all inputs of the enumerated families, not all inputs."),
+     text="Bounded-exhaustive: all record-length triples placing the write position at every residue before a block end x second-record classes x re-open splits are written with the real writer and read back byte for byte; each file is truncated at every relevant byte; writer-died-between-fragments + append cases. A statement about all inputs of the enumerated families, not all inputs. Long logs: 3..9 blocks that each end in a 1..6-byte trailer followed by a record of 0 / 1 / 3 / 30 bytes."),
   "C16": dict(level="fault_enumeration", design="§5 C16", note=CRASH_NOTE,
      technique="exhaustive torn-write enumeration: every write of every recorded history cut at the enumerated lengths, recovered with the real DB::open, probed and reopened",
      text="For the C02 histories every prefix ending in a write with that write cut at every length (<= 64 B) or at the boundary lengths (larger): open succeeds, contents = acknowledged state (torn operation absent or complete), writes acknowledged after recovery survive the next clean reopen, for both reuse_log_files settings."),
   "C04": dict(level="model_checking", design="§5 C04",
      technique="exhaustive enumeration of layouts (operation sequences on the real DB) x exhaustive enumeration of cursor programs against a sorted-map cursor",
-     text="At every state reached by every operation sequence up to the stated depth (T300/T1/M2, optionally with a live snapshot) a fresh iterator of every view runs every cursor program up to the stated length over seek(key or gap key)/seek_to_first/seek_to_last/next/prev; validity, key and value are compared with a cursor over the sorted model after every step; plus full forward/backward scans."),
+     text="At every state reached by every operation sequence up to the stated depth (T300/T1/M2, optionally with a live snapshot) a fresh iterator of every view runs every cursor program up to the stated length over seek(key or gap key)/seek_to_first/seek_to_last/next/prev; validity, key and value are compared with a cursor over the sorted model after every step; plus full forward/backward scans. Hot-key families: the start state holds 130 versions of the middle key (memtable and, under a live snapshot, tables); cursor programs of length 3 on top."),
   "C08": dict(level="fault_enumeration", design="§5 C08", note=CRASH_NOTE,
      technique="exhaustive single-fault enumeration: for every position of one failing filesystem call (once / sticky) in the call stream of recorded histories, re-execution on the real DB with a candidate-set oracle",
-     text="For three covering histories and all generated histories up to a depth: the uninjected run numbers the filesystem calls (create, write/append, rename, remove, open, size); for every index and both modes the history is re-executed with that call failing; API results must be Ok/Err (no panic, no hang), reads (gets, a long-lived iterator whose failed seek is retried once, full forward and backward scans) must be explained by a candidate state (Ok writes applied; a scan without an error is complete), and after disarming + reopen the contents must be a candidate; runs in which only the read side fails (open / read) over compactions whose inputs come from a cold table cache; the log writer and the table builder under a failing file. Schedule part (schedule x fault): all schedules within the bound of 20 writer/reader thread programs with a fault by file kind (once / sticky / only one thread's calls); judged by linearizability with failed calls optional and by per-key durability after a fault-free reopen."),
+     text="For three covering histories and all generated histories up to a depth: the uninjected run numbers the filesystem calls (create, write/append, rename, remove, open, size); for every index and both modes the history is re-executed with that call failing; API results must be Ok/Err (no panic, no hang), reads (gets, a long-lived iterator whose failed seek is retried once, full forward and backward scans) must be explained by a candidate state (Ok writes applied; a scan without an error is complete), and after disarming + reopen the contents must be a candidate; runs in which only the read side fails (open / read) over compactions whose inputs come from a cold table cache; the log writer and the table builder under a failing file. Schedule part (schedule x fault): all schedules within the bound of 20 writer/reader thread programs with a fault by file kind (once / sticky / only one thread's calls); judged by linearizability with failed calls optional and by per-key durability after a fault-free reopen. A failing write is also tried leaving half, all but one byte, or exactly one log-record header of its buffer in the file (sequential enumeration over the covering histories; schedule x fault programs with a half-written manifest record while a compaction is in flight)."),
   "C13": dict(level="exploration", design="§5 C13", note=COMP_NOTE,
      technique="exhaustive enumeration of sorted entry sets x block sizes against the real TableBuilder/Table, vector-model oracle for iteration, seek, get and cursor programs",
-     text="Bounded-exhaustive: every subset of up to 3 (thorough 4) of 8 boundary user keys x 5 version patterns per key x 5 block sizes; forward/backward iteration, every (key, sequence) probe for seek and get (Value/Deleted/NotInFile), and every short cursor program agree with the vector model; plus long runs of 15..100 shared-prefix keys (several restart points per block) and keys / values whose lengths sit on the varint boundaries (127/128, 16383/16384, 70000)."),
+     text="Bounded-exhaustive: every subset of up to 3 (thorough 4) of 8 boundary user keys x 5 version patterns per key x 5 block sizes; forward/backward iteration, every (key, sequence) probe for seek and get (Value/Deleted/NotInFile), and every short cursor program agree with the vector model; plus long runs of 15..100 shared-prefix keys (several restart points per block) and keys / values whose lengths sit on the varint boundaries (127/128, 16383/16384, 70000). Plus the filter-layout tables of C14 (3000-byte values, 1-byte blocks, a sweep of the first block's length over a 2 KiB window so that the following blocks start at every residue of the filter ranges), read through the Bloom filter."),
   "C14": dict(level="exploration", design="§5 C14", note=COMP_NOTE,
      technique="exhaustive enumeration of key multisets x bits_per_key 1..64 against the public BloomFilterPolicy, and of table layouts against the table's filter block",
      text="Bounded-exhaustive: all multisets of size 0..2 (thorough 3) over 40 short byte strings plus generated sets up to 5000 keys, for every bits_per_key 1..=64, 100, 1000 (also read by a policy built with another bits_per_key): every member may-match; for every enumerated table layout every user key of every data block may-match the filter consulted with that block's offset and every stored (key, seq) is found by get."),
   "C15": dict(level="fault_enumeration", design="§5 C15", note=CRASH_NOTE,
      technique="exhaustive single-byte corruption enumeration over every offset of every file of small database images, each opened and read completely with the real DB; error-or-correct oracle",
-     text="Fifteen small images (tables on three levels, WAL only, after a multi-output compaction, multi-block WAL record, fresh-manifest snapshot, six levels with many manifest edits, one-entry tables with a permissive filter, 4500-byte keys with a fragmented manifest record, tombstones + rotation, six images whose damaged block is the last entry a compaction merges): every offset of every file x {each bit flipped, 0x00, 0xff, +1} and table truncations; open, all gets, forward and backward scans, direction-changing cursor programs, and - for a damaged table - the gets again after a compaction of everything must each be an error or correct (WAL: damaged records may be skipped)."),
+     text="Fifteen small images (tables on three levels, WAL only, after a multi-output compaction, multi-block WAL record, fresh-manifest snapshot, six levels with many manifest edits, one-entry tables with a permissive filter, 4500-byte keys with a fragmented manifest record, tombstones + rotation, six images whose damaged block is the last entry a compaction merges): every offset of every file x {each bit flipped, 0x00, 0xff, +1} and table truncations; open, all gets, forward and backward scans, direction-changing cursor programs, and - for a damaged table - the gets again after a compaction of everything must each be an error or correct (WAL: damaged records may be skipped). One image's value carries the byte image of a complete log record at the offset where a reader that trusts a damaged length field would resume."),
   "C17": dict(level="model_checking", design="§5 C17", note=SCHED_NOTE,
      technique="exhaustive preemption/deviation-bounded schedule DFS of open/close/destroy programs on the real TmpFileSystem (flock), every filesystem call a switch point",
-     text="All schedules within the bound of 22 programs of 2-3 threads (open+hold, open+put+close, open with error_if_exists / without create_if_missing, destroy_database, a WAL write failing at close) from initial states absent/closed/open: never two live handles; while open elsewhere every open and destroy fails and the owner is undisturbed (it can still flush and write); exactly one of racing holders succeeds; attempts that fail do not keep the lock; every handle still open at the end is a working database."),
+     text="All schedules within the bound of 26 programs of 2-3 threads (open+hold, open+put+close, open with error_if_exists / without create_if_missing, destroy_database, a WAL write failing at close) from initial states absent/closed/open: never two live handles; while open elsewhere every open and destroy fails and the owner is undisturbed (it can still flush and write); exactly one of racing holders succeeds; attempts that fail do not keep the lock; every handle still open at the end is a working database. Three programs start from states in which a background compaction is due (three level-0 tables + a WAL; two overlapping level-0 tables and an owner that does 100 gets): the compaction thread is parked by gates in the harness filesystem until the owner closes, a second actor keeps trying to open; after a successful open no thread that existed before that open began may create, rename or remove a file (C17.previous_owner_still_writing), and no earlier instance may have work pending (C17.open_during_close)."),
 }
 
 NOT_APPLICABLE = {
